@@ -18,22 +18,8 @@ use bump_scope::traits::{
 };
 use bump_scope::{BaseAllocator, BumpBox, BumpScope, BumpScopeGuard, BumpVec, Checkpoint, FixedBumpVec, WithoutDealloc, WithoutShrink};
 
-use crate::talloc::Handle;
-
-#[derive(Clone, Copy, Debug, PartialEq, Eq)]
-pub struct Info {
-    pub up: bool,
-    pub min_align: usize,
-    pub ga: bool,
-    pub de: bool,
-    pub sh: bool,
-    pub mcs: usize,
-    pub shape: &'static str,
-    pub header_size: usize,
-    pub header_align: usize,
-    /// expensive generic operations are only instantiated for the family's home alignment
-    pub full: bool,
-}
+use bsv_core::talloc::Handle;
+pub use bsv_core::common::*;
 
 #[derive(Clone, Copy, Debug, PartialEq, Eq)]
 pub enum Route {
@@ -83,10 +69,6 @@ pub enum Elem {
     Al32,
     Unit,
 }
-
-#[derive(Clone, Copy, Debug, PartialEq, Eq, Default)]
-#[repr(align(32))]
-pub struct Al32(pub [u8; 32]);
 
 impl Elem {
     pub const ALL: [Elem; 6] = [Elem::U8, Elem::U32, Elem::U64, Elem::A3, Elem::Al32, Elem::Unit];
@@ -206,37 +188,6 @@ pub struct BoxOut {
     pub value_ok: bool,
 }
 
-#[derive(Clone, Debug, PartialEq, Eq)]
-pub struct ChunkSnap {
-    pub header: usize,
-    pub chunk_start: usize,
-    pub chunk_end: usize,
-    pub content_start: usize,
-    pub content_end: usize,
-    pub pos: usize,
-    pub size: usize,
-    pub capacity: usize,
-    pub allocated: usize,
-    pub remaining: usize,
-    pub prev: Option<usize>,
-    pub next: Option<usize>,
-}
-
-#[derive(Clone, Debug, PartialEq, Eq, Default)]
-pub struct StatsSnap {
-    /// small_to_big()
-    pub chunks: Vec<ChunkSnap>,
-    /// big_to_small()
-    pub chunks_rev: Vec<ChunkSnap>,
-    /// current_chunk() as chunk_start
-    pub current: Option<ChunkSnap>,
-    pub count: usize,
-    pub size: usize,
-    pub capacity: usize,
-    pub allocated: usize,
-    pub remaining: usize,
-}
-
 pub type AllocRes = Result<(usize, usize), ()>;
 
 /// `&self` part (available on a claimed original, too).
@@ -306,66 +257,6 @@ pub trait GuardApi {
 
 // ------------------------------------------------------------------------------------------
 
-fn chunk_snap<A, S: BumpAllocatorSettings>(c: bump_scope::stats::Chunk<'_, A, S>) -> ChunkSnap {
-    ChunkSnap {
-        header: if S::UP { c.chunk_start().as_ptr() as usize } else { c.content_end().as_ptr() as usize },
-        chunk_start: c.chunk_start().as_ptr() as usize,
-        chunk_end: c.chunk_end().as_ptr() as usize,
-        content_start: c.content_start().as_ptr() as usize,
-        content_end: c.content_end().as_ptr() as usize,
-        pos: c.bump_position().as_ptr() as usize,
-        size: c.size(),
-        capacity: c.capacity(),
-        allocated: c.allocated(),
-        remaining: c.remaining(),
-        prev: c.prev().map(|p| p.chunk_start().as_ptr() as usize),
-        next: c.next().map(|p| p.chunk_start().as_ptr() as usize),
-    }
-}
-
-fn any_chunk_snap(c: bump_scope::stats::AnyChunk<'_>, up: bool) -> ChunkSnap {
-    ChunkSnap {
-        header: if up { c.chunk_start().as_ptr() as usize } else { c.content_end().as_ptr() as usize },
-        chunk_start: c.chunk_start().as_ptr() as usize,
-        chunk_end: c.chunk_end().as_ptr() as usize,
-        content_start: c.content_start().as_ptr() as usize,
-        content_end: c.content_end().as_ptr() as usize,
-        pos: c.bump_position().as_ptr() as usize,
-        size: c.size(),
-        capacity: c.capacity(),
-        allocated: c.allocated(),
-        remaining: c.remaining(),
-        prev: c.prev().map(|p| p.chunk_start().as_ptr() as usize),
-        next: c.next().map(|p| p.chunk_start().as_ptr() as usize),
-    }
-}
-
-pub fn snap_stats<A, S: BumpAllocatorSettings>(s: Stats<'_, A, S>) -> StatsSnap {
-    StatsSnap {
-        chunks: s.small_to_big().map(chunk_snap).collect(),
-        chunks_rev: s.big_to_small().map(chunk_snap).collect(),
-        current: s.current_chunk().map(chunk_snap),
-        count: s.count(),
-        size: s.size(),
-        capacity: s.capacity(),
-        allocated: s.allocated(),
-        remaining: s.remaining(),
-    }
-}
-
-pub fn snap_any(s: AnyStats<'_>, up: bool) -> StatsSnap {
-    StatsSnap {
-        chunks: s.small_to_big().map(|c| any_chunk_snap(c, up)).collect(),
-        chunks_rev: s.big_to_small().map(|c| any_chunk_snap(c, up)).collect(),
-        current: s.current_chunk().map(|c| any_chunk_snap(c, up)),
-        count: s.count(),
-        size: s.size(),
-        capacity: s.capacity(),
-        allocated: s.allocated(),
-        remaining: s.remaining(),
-    }
-}
-
 fn nn(p: usize) -> NonNull<u8> {
     NonNull::new(p as *mut u8).expect("null pointer passed to api")
 }
@@ -375,15 +266,6 @@ fn res(r: Result<NonNull<[u8]>, bump_scope::alloc::AllocError>) -> AllocRes {
         Ok(p) => Ok((p.cast::<u8>().as_ptr() as usize, p.len())),
         Err(_) => Err(()),
     }
-}
-
-/// deterministic value generator for typed values
-pub fn val_bytes(seed: u64, i: usize) -> u8 {
-    let mut x = seed ^ (i as u64).wrapping_mul(0x9E3779B97F4A7C15) ^ 0xD6E8FEB86659FD93;
-    x ^= x >> 32;
-    x = x.wrapping_mul(0xD6E8FEB86659FD93);
-    x ^= x >> 29;
-    (x as u8) | 1
 }
 
 fn make_val<T: Copy>(seed: u64, idx: usize) -> T {
@@ -405,11 +287,6 @@ fn check_vals<T: Copy>(ptr: *const T, len: usize, seed: u64) -> bool {
         }
     }
     true
-}
-
-pub fn text(seed: u64, n: usize) -> String {
-    // ASCII without NUL so that C-string helpers keep everything
-    (0..n).map(|i| (b'a' + (val_bytes(seed, i) % 26)) as char).collect()
 }
 
 struct LyingIter<T> {
@@ -528,7 +405,7 @@ macro_rules! impl_api {
             A: Handle + BaseAllocator<Bool<GA>>,
         {
             fn x_info(&self) -> Info {
-                let h = crate::talloc::header_layout::<A>();
+                let h = bsv_core::talloc::header_layout::<A>();
                 Info { up: UP, min_align: $MA, ga: GA, de: DE, sh: SH, mcs: MCS, shape: A::NAME, header_size: h.size(), header_align: h.align(), full: const { A::HOME == $MA } }
             }
             fn x_shared(&self) -> &dyn Api {
